@@ -313,12 +313,13 @@ private:
 		if(! tempList.empty()) {
 			for(auto it = tempList.begin(); it != tempList.end(); ) {
 				using ArgsTuple = typename PrototypeInfo::ArgsTuple;
-				auto item = it->template get<QueuedItem<ArgsTuple> >();
-
-				if(item.callableIndex != PrototypeInfo::index) {
+				// The slot may hold an event of any prototype: look at the tag through the common
+				// base before treating the slot as QueuedItem<ArgsTuple>.
+				if(it->template get<QueuedItemBase>().callableIndex != PrototypeInfo::index) {
 					++it;
 					continue;
 				}
+				auto & item = it->template get<QueuedItem<ArgsTuple> >();
 				if(doInvokeFuncWithQueuedEvent(
 					func,
 					item,
@@ -349,7 +350,14 @@ private:
 			}
 		}
 
-		using NextPrototypeInfo = FindPrototypeByCallableFromIndex<PrototypeInfo::index + 1, PrototypeList, F>;
+		// Continue with the prototypes listed after PrototypeInfo::index (not with the whole list again).
+		using NextPrototypeInfo = FindPrototypeByCallableFromIndex<
+			PrototypeInfo::index + 1,
+			typename PrototypeInfo::RemainingList,
+			F,
+			FindPrototypeDefaultArgTransformer,
+			HeterTupleSize<PrototypeList>::value
+		>;
 		if(doProcessIf<NextPrototypeInfo>(std::forward<F>(func))) {
 			return true;
 		}
